@@ -164,7 +164,7 @@ type simConn struct {
 	outPending int
 	writes     []outWrite
 	overflowed int
-	lateWrites int // writes attempted after Close
+	lateWrites int    // writes attempted after Close
 	admits     []bool // outcome of every SEND admission of this connection, in order
 	decodes    []decodeRec
 	hSends     []hSend
